@@ -38,6 +38,56 @@
 //     returns an Option); fmt.Print* statements are ignored; an `int` parameter is accepted when the body does not use it
 //   - after the loop: one `return` of variables (the state variables, in order)
 //
+// Extensions for the stateful / slice-using kernels (typed.go, ints.go, calls.go, loops.go, stmts2.go, partial.go, whole.go; the
+// vocabulary is defined once in the hand-written lean/OW/Gen/Prelude.lean):
+//   - TYPES: float64 ↦ α, bool ↦ Bool, int ↦ Int (64-bit overflow is outside the model), []float64 ↦ List α. Parameters, results,
+//     state variables, pre-loop values and helper signatures may have any of these types; an int parameter a body does not use is
+//     dropped (the time-step counter passed to calcOutflow). `int(x)` ↦ Num.toInt, `float64(i)` ↦ Num.ofInt, int `/ %` ↦
+//     Int.tdiv / Int.tmod, `m.MinInt/MaxInt` ↦ minInt / maxInt, `x := <integer literal>` declares an int (as in Go).
+//   - SLICES: `make([]float64, n)` ↦ mkSlice n, `[]float64{…}`, `xs[i]` ↦ sliceGet xs i, `xs[i] = e` ↦ xs := sliceSet xs i e,
+//     `len(xs)` ↦ sliceLen xs. OUT-OF-RANGE accesses (Go panics) are NOT modelled: sliceGet returns the default value, sliceSet
+//     leaves the list unchanged (reported as such).
+//   - LOOPS over an int range, anywhere (before the time loop, in it, in helpers): `for i := a; i < b; i++` / `i <= b` ↦
+//     `forRange a b body carried` (carried = the outer variables the body assigns, declaration order; bounds evaluated once: the
+//     body may not assign what the bound reads; no break / continue / return). The time loop is the LAST top-level loop whose bound
+//     is the length of a series.
+//   - a parameter assigned before the loop (storageRouting: bias, x) is from then on a pre-loop value (a component of `pre`, an
+//     argument of `step` in place of the parameter).
+//   - FUNCTION LITERALS bound to a local name are lambda-lifted to definitions (`<helper>_<name>`); the captured variables become
+//     leading parameters (declaration order) and may not be assigned after the literal (Go captures by reference).
+//   - PANICS: `panic(…)` anywhere ends the path with `none`; a function (helper, literal, step) that can reach one returns an
+//     Option, its callers bind it at statement level (`x := f(…)`, `a, b = f(…)`, `return f(…)`): `match f … with | none => none |
+//     some r => <rest>`; an `if` that contains such a call is rendered in continuation-passing form like one that returns.
+//   - a module function that CANNOT be translated (function-typed parameters: fn.FindRoot) is an ABSTRACT argument of the
+//     definitions that reach it, of type `args → Option results` (function literals are passed with their captured variables
+//     applied); reported as abstract — the tie theorem instantiates it with the hand-written model of that function.
+//   - WHOLE-FUNCTION mode (table entry Whole: lag, storageTrapAll, inputNode — no time loop of the standard shape): every series
+//     is a List α (`Len1` ↦ sliceLen, `Get(idx)` ↦ sliceGet, `Set` ↦ sliceSet, `idx := []int{e}` / `idx[0] = e` ↦ an Int,
+//     `CopyFrom` ↦ copyFrom); the definition `run` returns the returned values and then the written series.
+//   - package-level tables `var T = [...]int{…}` that no code of the package assigns: `x := T[i]` / `return T[i]` ↦ `intTable
+//     [..] i` (none = index out of range, a Go panic).
+//   - `for cond { … }` / `for { … break … }` in the time loop (sub-step loops): body and condition are lifted to definitions
+//     `loopBodyN`, `loopCondN` (leading parameters: abstract functions, fuels of inner loops, the outer variables they read, in
+//     declaration order); `match whileLoop (loopCondN …) (loopBodyN …) fuelN carried with | none => none | some … => …` with an
+//     explicit fuel parameter of `step` per loop (Lean needs a termination measure; the ties hold for every fuel).
+//   - `for i := a; i > b; i--` / `i >= b` ↦ forRangeDown; `for _, v := range xs` over a []float64 ↦ List.foldl.
+//   - table entry Lift (sacramento): the bodies of the int-range loops inside the time loop are lifted to definitions
+//     `loopBodyN caps… i carried` as well (the tie of such a kernel is by `rfl` against a copy kept in OW/Proofs, see
+//     OW/Props/GenTieSacramento.lean).
+//   - statements after the time loop: the definition `final` (parameters, pre-loop values, final state ↦ returned values).
+//   - TABLE series: a series parameter that is read at a constant index vector (`idxC := []int{e}` never assigned element-wise),
+//     passed to a local function literal or to a configuration check is a `List α` parameter of the definitions;
+//     `t.Get(idxC)` ↦ `tableGet t idxC : Option α` (none = out of range, a Go panic), bound like a call that may panic — also
+//     before the loop, where guard / pre / init then return Options.
+//   - `err := check(args…); if err != nil { [print…;] return }` before the loop with `check` a module function whose only result
+//     is an error: an early return; `check` is NOT translated (an abstract argument `check : args → Bool`, true = non-nil
+//     error). An early return in a kernel with named results leaves them at their zero values (reported in the doc of guard).
+//   - a delegating branch may first build a temporary series element-wise from series parameters
+//     (`X := data.NewArray1DFloat64(S.Len1()); X.CopyFrom(S); data.AddToFloat64Array(X, T)`): the callee reads `S + T` at
+//     every step in place of X (data/gen-arrayops.go itself is not translated: reported).
+//   - a call of a function that may panic inside an expression (`out.Set(idx, float64(f(…)))`, `if d > f(…)`) is bound first, in
+//     evaluation order, and refused in the right operand of && / ||.
+//
 // Semantics the translation relies on (= Go's for this subset): operands are pure, so evaluation order is irrelevant
 // except for the association of float operations, which is the AST's (Go precedence, left-associative); every float64
 // operation rounds once (no fused multiply-add on amd64); assignments are emitted as shadowing `let`s in program order,
@@ -65,47 +115,49 @@ import (
 var table = []struct {
 	Dir, Func string
 	NonNil    bool
+	Whole     bool // no time loop of the standard shape: translated as a whole, series as lists
+	Lift      bool // the bodies of the int-range loops inside the time loop are lifted to definitions of their own
 }{
-	{"models/rr", "runoffCoefficient", false},
-	{"models/routing", "muskingum", false},
-	{"models/routing", "LumpedConstituentTransport", true},
-	{"models/routing", "constituentDecay", false},
-	{"models/routing", "instreamCoarseSediment", false},
-	{"models/routing", "instreamParticulateNutrient", false},
-	{"models/routing", "instreamDissolvedNutrient", false},
-	{"models/routing", "instreamFineSediment", false},
-	{"models/routing", "lag", false},
-	{"models/conversion", "applyScaling", false},
-	{"models/conversion", "depthToRate", false},
-	{"models/conversion", "fixedPartition", false},
-	{"models/conversion", "variablePartition", false},
-	{"models/conversion", "ratingPartition", false},
-	{"models/functions", "sum", false},
-	{"models/functions", "gate", false},
-	{"models/functions", "computeProportion", false},
-	{"models/functions", "partitionDemand", false},
-	{"models/generation", "emcDWC", false},
-	{"models/generation", "fixedConcentration", false},
-	{"models/generation", "passLoadIfFlow", false},
-	{"models/generation", "dissolvedNutrients", false},
-	{"models/generation", "particulateNutrients", false},
-	{"models/generation", "bankErosion", false},
-	{"models/generation", "usleFine", false},
-	{"models/generation", "sednetGullyOrig", false},
-	{"models/generation", "sednetGullyDerm", false},
-	{"models/rr", "simhyd", false},
-	{"models/rr", "surm", false},
-	{"models/rr", "gr4j", false},
-	{"models/rr", "sacramento", false},
-	{"models/routing", "storageRouting", false},
-	{"models/storage", "storageParticulateTrapping", false},
-	{"models/storage", "storageDissolvedDecay", false},
-	{"models/storage", "storageTrapAll", false},
-	{"models/storage", "storageWaterBalance", false},
-	{"models/functions", "baseflowFilter", false},
-	{"models/functions", "inputNode", false},
-	{"models/functions", "dateGenerator", false},
-	{"models/climate", "climateVariables", false},
+	{"models/rr", "runoffCoefficient", false, false, false},
+	{"models/routing", "muskingum", false, false, false},
+	{"models/routing", "LumpedConstituentTransport", true, false, false},
+	{"models/routing", "constituentDecay", false, false, false},
+	{"models/routing", "instreamCoarseSediment", false, false, false},
+	{"models/routing", "instreamParticulateNutrient", false, false, false},
+	{"models/routing", "instreamDissolvedNutrient", false, false, false},
+	{"models/routing", "instreamFineSediment", false, false, false},
+	{"models/routing", "lag", false, true, false},
+	{"models/conversion", "applyScaling", false, false, false},
+	{"models/conversion", "depthToRate", false, false, false},
+	{"models/conversion", "fixedPartition", false, false, false},
+	{"models/conversion", "variablePartition", false, false, false},
+	{"models/conversion", "ratingPartition", false, false, false},
+	{"models/functions", "sum", false, false, false},
+	{"models/functions", "gate", false, false, false},
+	{"models/functions", "computeProportion", false, false, false},
+	{"models/functions", "partitionDemand", false, false, false},
+	{"models/generation", "emcDWC", false, false, false},
+	{"models/generation", "fixedConcentration", false, false, false},
+	{"models/generation", "passLoadIfFlow", false, false, false},
+	{"models/generation", "dissolvedNutrients", false, false, false},
+	{"models/generation", "particulateNutrients", false, false, false},
+	{"models/generation", "bankErosion", false, false, false},
+	{"models/generation", "usleFine", false, false, false},
+	{"models/generation", "sednetGullyOrig", false, false, false},
+	{"models/generation", "sednetGullyDerm", false, false, false},
+	{"models/rr", "simhyd", false, false, false},
+	{"models/rr", "surm", false, false, false},
+	{"models/rr", "gr4j", false, false, false},
+	{"models/rr", "sacramento", false, false, true},
+	{"models/routing", "storageRouting", false, false, false},
+	{"models/storage", "storageParticulateTrapping", false, false, false},
+	{"models/storage", "storageDissolvedDecay", false, false, false},
+	{"models/storage", "storageTrapAll", false, true, false},
+	{"models/storage", "storageWaterBalance", false, false, false},
+	{"models/functions", "baseflowFilter", false, false, false},
+	{"models/functions", "inputNode", false, true, false},
+	{"models/functions", "dateGenerator", false, false, false},
+	{"models/climate", "climateVariables", false, false, false},
 }
 
 type unsupported struct{ msg string }
@@ -126,6 +178,7 @@ type pkg struct {
 	cidx   map[string]int
 	memo   map[string]*cval
 	busy   map[string]bool
+	itabs  map[string]*intTab
 	funcs  map[string]*ast.FuncDecl // package-level functions (no methods)
 	ffile  map[string]*ast.File
 	types  map[string]*ast.TypeSpec
@@ -135,6 +188,10 @@ type world struct {
 	repo, module string
 	fset         *token.FileSet
 	pkgs         map[string]*pkg
+	partialMemo  map[string]bool
+	current      string          // the table entry being translated
+	sliceUse     map[string]bool // table entries whose translation indexes a []float64
+	derivedUse   map[string]bool // table entries whose translation renders data.AddToFloat64Array / CopyFrom on a temporary series
 }
 
 func (w *world) load(dir string) *pkg {
@@ -358,6 +415,7 @@ func leanOfValue(v constant.Value) string {
 
 func main() {
 	repo := flag.String("repo", "", "repository root (default $OW_REPO, then /repo)")
+	nsFlag := flag.String("ns", "OW.Gen.K", "namespace of the generated definitions (development only)")
 	flag.Parse()
 	if *repo == "" {
 		*repo = os.Getenv("OW_REPO")
@@ -384,19 +442,31 @@ func main() {
 		fmt.Fprintln(os.Stderr, "no module line in go.mod")
 		os.Exit(2)
 	}
-	w := &world{repo: abs, module: string(m[1]), fset: token.NewFileSet(), pkgs: map[string]*pkg{}}
+	w := &world{repo: abs, module: string(m[1]), fset: token.NewFileSet(), pkgs: map[string]*pkg{}, partialMemo: map[string]bool{}, sliceUse: map[string]bool{}, derivedUse: map[string]bool{}}
 	var b strings.Builder
-	b.WriteString("import OW.Num\n/-\nGENERATED by harness/cmd/owtranslate from the Go source of the kernels — do not edit; regenerated on every run.\n" +
+	b.WriteString("import OW.Num\nimport OW.Gen.Prelude\n/-\nGENERATED by harness/cmd/owtranslate from the Go source of the kernels — do not edit; regenerated on every run.\n" +
 		"One namespace per Go function: `guard` (early return before the loop), `pre` (values computed before the loop),\n" +
 		"`init` (state on loop entry), `step` (one iteration). Assignments are shadowing `let`s in program order; an `if` that\n" +
 		"cannot end the step is a merge `let phiN := if … then (…) else (…)`; an output not set on a path keeps `Num.zero`.\n-/\n" +
-		"set_option linter.unusedVariables false\nnamespace OW.Gen.K\nopen OW\n\n" +
+		"set_option linter.unusedVariables false\nnamespace " + *nsFlag + "\nopen OW OW.Gen.Prelude\n\n" +
 		"/-- `for i := 0; i < n; i++ { c = body c; if <break> { break } }`: `body` returns the new carried values and whether the loop is left -/\n" +
 		"def boundedLoop {σ : Type} (body : σ → σ × Bool) : Nat → σ → σ\n  | 0, c => c\n  | n + 1, c => let r := body c; if r.2 then r.1 else boundedLoop body n r.1\n\n")
 	var reps []report
 	var tied []string
 	for _, t := range table {
-		text, rep := translateOne(w, t.Dir, t.Func, t.NonNil)
+		w.current = t.Func
+		text, rep := translateOne(w, t.Dir, t.Func, t.NonNil, t.Whole, t.Lift)
+		if rep.Status == "ok" && !rep.Whole {
+			if w.sliceUse[t.Func] {
+				rep.NotModelled = append(rep.NotModelled, "out-of-range slice accesses (Go panic): sliceGet returns the default value, sliceSet leaves the list unchanged")
+			}
+			if len(rep.Fuel) > 0 {
+				rep.NotModelled = append(rep.NotModelled, "termination of the sub-step loops: they are rendered with explicit fuel ("+strings.Join(rep.Fuel, ", ")+"); step is none also when the fuel runs out")
+			}
+			if w.derivedUse[t.Func] {
+				rep.NotModelled = append(rep.NotModelled, "data.NewArray1DFloat64 / CopyFrom / data.AddToFloat64Array on a temporary series are rendered as the element-wise copy / sum (data/gen-arrayops.go is not translated)")
+			}
+		}
 		reps = append(reps, rep)
 		if rep.Status == "ok" {
 			b.WriteString(text + "\n")
@@ -405,7 +475,7 @@ func main() {
 			fmt.Fprintf(&b, "-- %s (%s): %s: %s\n\n", t.Func, t.Dir, rep.Status, rep.Reason)
 		}
 	}
-	fmt.Fprintf(&b, "/-- the Go functions translated in this run -/\ndef translated : List String := [%s]\n\nend OW.Gen.K\n", strings.Join(tied, ", "))
+	fmt.Fprintf(&b, "/-- the Go functions translated in this run -/\ndef translated : List String := [%s]\n\nend %s\n", strings.Join(tied, ", "), *nsFlag)
 	out := flag.Arg(0)
 	old, _ := os.ReadFile(out)
 	changed := string(old) != b.String()
